@@ -395,7 +395,70 @@ func ruleR29_4(c *Check) {
 	r.Exists(n >= 1, w.F("badger.DB.dropAll"), "id-space restart site", nil, "no constant store to levelsController.nextFileID (dropAll's restart)")
 }
 
+// R29.6: a table is dropped whole only if ONE dropped prefix covers both of its ends.
+func ruleR29_6(c *Check) {
+	w := c.W
+	r := c.Rule("R29.6", "E6", 2, "compactBuildTables.keepTable drops a table without reading it only when its smallest and its biggest user key both start with the same dropped prefix (the two HasPrefix tests use the same prefix variable of one iteration over dropPrefixes): then, and only then, every key in between has that prefix too",
+		"with several prefixes a table whose ends match two different prefixes also holds the keys between them: dropping it whole deletes keys that start with none of the prefixes")
+	f := w.F("badger.levelsController.compactBuildTables")
+	kt := f.LitVar("keepTable")
+	hp := w.Obj("bytes.HasPrefix")
+	n := 0
+	var k keyer
+	kt.walk(func(x ast.Node) bool {
+		rs, ok := x.(*ast.ReturnStmt)
+		if !ok || len(rs.Results) != 1 {
+			return true
+		}
+		if tv := w.Info.Types[rs.Results[0]]; tv.Value == nil || tv.Value.String() != "false" {
+			return true
+		}
+		n++
+		var small, big types.Object
+		for _, g := range w.Guards(kt, rs) {
+			call, isCall := g.Cond.(*ast.CallExpr)
+			if !isCall || !g.Val || w.Callee(call) != hp || len(call.Args) != 2 {
+				continue
+			}
+			pid, isId := unparen(call.Args[1]).(*ast.Ident)
+			if !isId {
+				continue
+			}
+			inner := unparen(w.Origin(kt, call.Args[0]))
+			if pk, isPK := inner.(*ast.CallExpr); isPK && w.Callee(pk) == types.Object(w.Func("y.ParseKey")) && len(pk.Args) == 1 {
+				inner = unparen(w.Origin(kt, pk.Args[0]))
+			}
+			if mc, isM := inner.(*ast.CallExpr); isM && w.Callee(mc) != nil {
+				switch w.Callee(mc).Name() {
+				case "Smallest":
+					small = w.Use(pid)
+				case "Biggest":
+					big = w.Use(pid)
+				}
+			}
+		}
+		okv := small != nil && big != nil && small == big
+		// the shared prefix is the variable of a loop over the dropped prefixes
+		if okv {
+			inRange := false
+			for p := w.parentOf(rs); p != nil; p = w.parentOf(p) {
+				if rg, isR := p.(*ast.RangeStmt); isR {
+					if vid, isId := rg.Value.(*ast.Ident); isId && w.Info.Defs[vid] == small {
+						inRange = true
+					}
+				}
+			}
+			okv = inRange
+		}
+		r.Check(okv, kt, k.key("whole-table drop: both ends under the same prefix", w, rs), rs, "the table is dropped whole without its smallest and biggest key being tested against the same prefix")
+		return true
+	})
+	r.Exists(n >= 1, kt, "whole-table drop site", nil, "keepTable never returns false")
+}
+
 func propC29(c *Check) {
+	ruleR29_6(c)
+	ruleR03_3(c) // a commit refused during the drop gives its timestamp back: the database keeps accepting transactions afterwards
 	ruleR29_5(c)
 	ruleR29_4(c)
 	ruleR29_1(c)
